@@ -41,7 +41,15 @@ fn run_case(_kind: &str, idx: u64, rng: &mut Rng, mon: &mut Mon, _tier: Tier) {
     }
     let initial = cell.robot.rp.from_theta(&t);
     // keep the initial vector inside the limits
-    let initial: [f64; 6] = std::array::from_fn(|j| initial[j].max(-2.9).min(2.9));
+    let mut initial: [f64; 6] = std::array::from_fn(|j| initial[j].max(-2.9).min(2.9));
+    // a share of the initial vectors is collision free but outside the limits on one joint: candidates
+    // that keep the illegal value must not be offered
+    let illegal_initial = rng.bool(0.15);
+    if illegal_initial {
+        let j = rng.usize(6);
+        initial[j] = rng.sign() * rng.range(3.03, 3.12);
+        mon.count("initial_out_of_limits_cases");
+    }
     let mut from = initial;
     let mut to = initial;
     for j in 0..6 {
